@@ -98,6 +98,43 @@ def do_case(ctx, inp):
         frows_l, fcols_l, Rs = fr2_l, fc2_l, RsB
     if box_size(p) > (20000 if ctx.quick else 200000):
         ctx.tags["box-not-enumerated"] += 1
+        # boxes too large to enumerate: the same three clauses on probe points — every corner of the box (<= 10 columns), points
+        # that meet a row with equality in one column, and random in-box points
+        import itertools as _it
+        cands = set()
+        if nc <= 10:
+            cands.update(_it.product(*[(lo, hi) for lo, hi in p["bnds"]]))
+        for _ in range(200):
+            cands.add(tuple(rng.choice([lo, hi, rng.randint(lo, hi), rng.randint(lo, hi)]) for lo, hi in p["bnds"]))
+        for x in list(cands)[:400]:
+            for b, cs in p["rows"]:
+                for j, c in enumerate(cs):
+                    if c != 0:
+                        rest = dot(cs, x) - c * x[j]
+                        for xv in {-((rest - b) // c), (b - rest) // c, (b - rest + abs(c) - 1) // c}:
+                            if p["bnds"][j][0] <= xv <= p["bnds"][j][1]:
+                                cands.add(x[:j] + (int(xv),) + x[j + 1:])
+        cands = sorted(cands)
+        sols = [x for x in cands if all(dot(cs, x) >= b for b, cs in p["rows"])]
+        ctx.tags["probe-solutions-found" if sols else "no-probe-solution"] += 1
+        for i, m in enumerate(rr):
+            if m:
+                b, cs = p["rows"][i]
+                bad = [x for x in cands if dot(cs, x) < b]
+                if bad:
+                    ctx.fail("reported-reducible-row-violated-by-in-box-point", {"row": i, "point": list(bad[0])}); return
+        for mask, name in ((rc, "reducable_columns_approx"), (fcols_l, "reducable_rows_and_columns")):
+            for j, c in enumerate(mask):
+                if c is not None:
+                    bad = [x for x in sols if x[j] != c]
+                    if bad:
+                        ctx.fail("forced-column-not-forced", {"by": name, "column": j, "value": c, "solution": list(bad[0])}); return
+        keep = [j for j, c in enumerate(fcols_l) if c is None]
+        for x in sols:
+            y = tuple(x[j] for j in keep)
+            if Rs["bnds"] and not (all(lo <= v <= hi for v, (lo, hi) in zip(y, Rs["bnds"])) and all(dot(cs, y) >= b for b, cs in Rs["rows"])):
+                ctx.fail("reduced-solution-set-is-not-the-projection", {"lost": [list(y)], "solution": list(x), "rows": frows_l, "cols": fcols_l,
+                                                                         "reduced": Rs}); return
         return
     pts = list(box(p))
     sols = [x for x in pts if all(dot(cs, x) >= b for b, cs in p["rows"])]
@@ -126,7 +163,10 @@ def do_case(ctx, inp):
 def run(ctx):
     n = (1200 if ctx.quick else 8000) * (3 if ctx.search else 1)
     for _ in range(n):
-        if ctx.rng.random() < 0.25:
+        r0 = ctx.rng.random()
+        if r0 < 0.08:
+            case = {"p": gen_bigm(ctx.rng)}; ctx.tags["big-M-rows-over-integer-columns"] += 1
+        elif r0 < 0.3:
             case = {"p": gen_chain(ctx.rng, ctx.quick), "chain": True}
         else:
             case = {"p": gen_poly(ctx.rng, ctx.quick, wide=ctx.rng.random() < 0.05)}
